@@ -120,6 +120,7 @@ pub fn gen_case(t: &mut Tape) -> Case {
         passthru,
         line_number: !t.chance(1, 6),
         multi_line: true,
+        warm: gen::gen_warm(t, term),
         ..SCfg::default()
     };
     let strat = match t.weighted(&[4, 4, 1, 1]) {
@@ -301,6 +302,7 @@ fn check_inner(case: &Case) -> Verdict {
     let mut info = Info::new(spans_two && some_unreported);
     info.class_if(spans_two, "match_spans_lines");
     info.class_if(case.cfg.invert, "invert");
+    info.class_if(case.cfg.warm.is_some(), "searcher_reused_after_another_input");
     info.class_if(ambiguous, "iteration_ambiguous");
     info.class_if(ma.iter().any(|&(s, e)| s == e), "empty_match");
     info.class_if(
